@@ -306,6 +306,7 @@ type c02rmHist struct {
 	Steps     []c02rmStep `json:"steps"`
 	Log       []string    `json:"what_happened"`
 	progs     []*vk.RProg
+	npkt      int // probe packets per probe (0: the run's default)
 }
 
 const (
@@ -412,7 +413,11 @@ func (env *c02rmEnv) probe(h *c02rmHist, x *c02rmMaps, stage string, g *c02rmGen
 	for _, p := range h.progs {
 		merged.Rules = append(merged.Rules, p.Rules...)
 	}
-	pkts := vk.ProbePackets(merged, env.r, env.npkt)
+	npkt := env.npkt
+	if h.npkt > 0 {
+		npkt = h.npkt
+	}
+	pkts := vk.ProbePackets(merged, env.r, npkt)
 	type pc struct {
 		pkt vk.RPkt
 		wan bool
@@ -597,6 +602,74 @@ func c02rmHugeHist(r *rand.Rand, i int) *c02rmHist {
 		h.Steps = append(h.Steps, c02rmStep{Kind: c02rmFailBeforeCommit, Prog: 1}, c02rmStep{Kind: c02rmReloadOK, Prog: 1})
 	} else {
 		h.Steps = append(h.Steps, c02rmStep{Kind: c02rmReloadOK, Prog: 1}, c02rmStep{Kind: c02rmFailBeforeCommit, Prog: 0})
+	}
+	return h
+}
+
+// c02rmWideProg: ns rules, each with ONE address set of many distinct prefixes (set sizes unequal:
+// a few prefixes, around a hundred, exactly/just past powers of two, some hundreds), alternating
+// outbounds so that the optimisers cannot merge neighbours. The key-conversion stage of
+// BuildKernspace then has many sets of many keys in flight at once - more keys in total than any
+// fixed-size scratch, pool or arena a worker might carve them from.
+func c02rmWideProg(r *rand.Rand, ns int) (*vk.RProg, int) {
+	outs := append([]string{"direct", "block"}, verifGroups...)
+	fns := []string{"dip", "sip", "dip", "sip", "ip"}
+	p := &vk.RProg{Fallback: vk.ROut{Name: outs[r.IntN(len(outs))]}}
+	base := r.IntN(180)
+	sizes := []int{3, 17, 64, 100, 127, 128, 129, 200, 256, 300}
+	total := 0
+	for i := 0; i < ns; i++ {
+		w := sizes[r.IntN(len(sizes))]
+		if r.IntN(3) == 0 {
+			w = 60 + r.IntN(70)
+		}
+		c := vk.RCond{Func: fns[r.IntN(len(fns))]}
+		for j := 0; j < w; j++ {
+			var v string
+			switch r.IntN(10) {
+			case 0:
+				v = fmt.Sprintf("2001:db8:%x:%x::/64", i, j)
+			case 1:
+				v = fmt.Sprintf("10.%d.%d.%d/32", (base+i)%256, j%256, 1+j/256)
+			case 2:
+				v = fmt.Sprintf("10.%d.%d.%d/25", (base+i)%256, j%256, 128*(j/256%2))
+			default:
+				v = fmt.Sprintf("10.%d.%d.0/24", (base+i)%256, j%256)
+			}
+			c.Params = append(c.Params, vk.RParam{Val: v})
+		}
+		total += w
+		p.Rules = append(p.Rules, vk.RRule{Conds: []vk.RCond{c}, Out: vk.ROut{Name: outs[i%len(outs)]}})
+	}
+	return p, total
+}
+
+// c02rmWideHist: two wide programs; start, a reload, and a roll-back that commits a snapshot again.
+func c02rmWideHist(r *rand.Rand, m *vk.Monitor) *c02rmHist {
+	h := &c02rmHist{npkt: vk.Scale(500, 1500)}
+	for j := 0; j < 2; j++ {
+		ns := 12 + r.IntN(vk.Scale(20, 40))
+		p, total := c02rmWideProg(r, ns)
+		h.progs = append(h.progs, p)
+		first := p.Rules[0].Text()
+		if len(first) > 60 {
+			first = first[:60]
+		}
+		h.Programs = append(h.Programs, fmt.Sprintf("%d rules, one address set each, %d prefixes in all, like %q... (text omitted)", ns, total, first))
+		m.Count("wide_programs", 1)
+		if total > 1024 {
+			m.Count("wide_programs_with_more_than_1024_prefixes", 1)
+		}
+		if total > 4096 {
+			m.Count("wide_programs_with_more_than_4096_prefixes", 1)
+		}
+	}
+	h.Steps = []c02rmStep{{Kind: "start", Prog: 0}, {Kind: c02rmReloadOK, Prog: 1}}
+	switch r.IntN(3) {
+	case 0:
+		h.Steps = append(h.Steps, c02rmStep{Kind: c02rmFailBeforeCommit, Prog: 0})
+	case 1:
+		h.Steps = append(h.Steps, c02rmStep{Kind: c02rmFailAfterCommit, Prog: 0})
 	}
 	return h
 }
@@ -888,10 +961,17 @@ func TestVerifC02RealMaps(t *testing.T) {
 		nhuge = 2
 	}
 	nover := vk.Scale(2, 40)
-	for i := 0; i < nh+nbig+nover+nhuge && m.Violations() < 3; i++ {
-		big, over, huge := i >= nh && i < nh+nbig, i >= nh+nbig && i < nh+nbig+nover, i >= nh+nbig+nover
+	// programs of 12-50 address sets with up to 300 prefixes each (thousands of keys per commit)
+	nwide := vk.Scale(3, 40)
+	rW := vk.NewRand(0xC02D) // own stream: the other histories keep their cases
+	for i := 0; i < nh+nbig+nover+nhuge+nwide && m.Violations() < 3; i++ {
+		big, over, huge := i >= nh && i < nh+nbig, i >= nh+nbig && i < nh+nbig+nover, i >= nh+nbig+nover && i < nh+nbig+nover+nhuge
+		wide := i >= nh+nbig+nover+nhuge
 		var h *c02rmHist
 		switch {
+		case wide:
+			h = c02rmWideHist(rW, m)
+			m.Count("wide_histories", 1)
 		case huge:
 			h = c02rmHugeHist(r, i-nh-nbig-nover)
 			m.Count("huge_histories", 1)
@@ -937,6 +1017,7 @@ func TestVerifC02RealMaps(t *testing.T) {
 		"lpm_slots_released_between_probes", "builds_that_wrapped_the_lpm_ring", "commits_with_4_or_more_tries(parallel path)",
 		"injected_commit_faults_effective", "reloads_with_unchanged_program", "port53_pairs", "control_plane_routing_expected", "wan_pairs", "lan_pairs", "big_histories")
 	m.Require("ring_overlap_histories", "rebuilds_whose_slots_overlap_the_slots_they_supersede")
+	m.Require("wide_histories", "wide_programs_with_more_than_1024_prefixes")
 	if nhuge > 0 {
 		m.Require("huge_histories", "reloads_whose_slots_overlap_the_previous_generation's")
 	}
